@@ -708,9 +708,18 @@ fn do_stream(cx: &mut Ctx, stream: Vec<u8>, label: &str, full_frag: bool) {
     let id = cx.o.case(&format!("S\t{}\t{}\t{}", sid, hv, hex(&data)), &text, &format!("{}:{}", label, endkind));
     cx.o.check(base.fin != "PANIC", "-", &id, || format!("stream {} ({}): the reader panicked", sid, hex(&data)));
     cx.o.check(base.fin != "HANG", "-", &id, || format!("stream {} ({}): the reader did not return", sid, hex(&data)));
+    // the harness callback never fails by itself: an error from it means the reader asked it more than four million
+    // times without ever consuming what it got (it would loop for ever on a real file)
+    cx.o.check(!base.fin.contains("ERR:Cb"), "-", &id, || format!("stream {} ({} bytes, {}...): the reader keeps calling the read callback without making progress", sid, len, hex(&data[..len.min(100)])));
 
     // ---- oracles on the item list
     let complete = base.fin.starts_with("END");
+    // a stream that the independent whole-slice decoder reads up to FINISH does not end early for the reader
+    // (whatever the size of its records: the read buffer has to grow for records longer than itself)
+    if !complete && base.fin.contains("UnexpectedEnd") {
+        let whole = version.and_then(|v| parse_msgs(&data[body_at..], v)).is_some();
+        cx.o.check(!whole, "-", &id, || format!("stream {} ({} bytes, {}...): the reader stops with {} although the stream is complete up to FINISH", sid, len, hex(&data[..len.min(120)]), base.fin));
+    }
     match nesting(&base.items, complete) {
         Err(e) => cx.o.check(false, "-", &id, || format!("stream {}: tick markers not nested/increasing: {} in [{}]", sid, e, text)),
         Ok(item_ticks) => {
